@@ -83,6 +83,9 @@ func genOps(t *tape.Tape, n int) []WOp {
 		if t.Chance(1, 4) {
 			ops = append(ops, WOp{Op: "flush"})
 		}
+		if t.Chance(1, 16) {
+			ops = append(ops, WOp{Op: "emptyrg"}) // WriteRowGroup of a row group without rows
+		}
 	}
 	if left > 0 {
 		ops = append(ops, WOp{Op: "write", N: left})
@@ -97,7 +100,7 @@ func GenWritePlan(t *tape.Tape, shapes []gen.Shape, maxRows int) WritePlan {
 	sh := gen.Resolve(t, shapes[t.Draw(len(shapes))])
 	p := WritePlan{
 		Shape:      sh.Name(),
-		WriterKind: gen.WriterKinds[t.Weighted(4, 2, 2, 2, 1)],
+		WriterKind: gen.WriterKinds[t.Weighted(4, 2, 2, 2, 1, 2)],
 		Profile:    t.Draw(3),
 		RowSeed:    t.Seed(),
 		NRows:      genRowCount(t, maxRows),
@@ -177,6 +180,12 @@ func (res *Written) RunOps(c *core.Ctx, ops []WOp, cursor int) {
 			c.Event("op%d flush %v", i, err != nil)
 			if err != nil {
 				fail("flush", err)
+			}
+		case "emptyrg":
+			_, err := w.WriteRowGroup(res.Shape.NewBuffer(gen.BUntyped))
+			c.Event("op%d emptyrg %v", i, err != nil)
+			if err != nil {
+				fail("write-empty-row-group", err)
 			}
 		}
 	}
